@@ -517,7 +517,11 @@ def run(cfg):
     units = []
     try:
         for conf in confs:
-            b = bound if len(conf['callers']) < 3 else 1
+            # thorough: 2 preemptions for the one-caller scripts and the two-caller scripts without cut responses
+            # (measured: 2 preemptions on every script is > 1 h on 16 cores); everything else 1
+            small = len(conf['callers']) == 1 or (conf['name'] in ('call || close, both served', 'call || close, only close served'))
+            b = bound if small else 1
+            conf['bound'] = b
             h = run_conf(conf, [])
             units.append((conf, 'root-only', b, False))
             for cost, a in _alternatives(h.sched, 0, b):
@@ -554,7 +558,7 @@ def run(cfg):
         'samples': [{'config': c['name'], 'callers': c['callers'], 'script': [list(a) for a in c['script']]}
                     for c in (confs[0], confs[len(confs) // 3], confs[-1])],
         'exhaustive': True,
-        'bound_completed': bound,
+        'bound_completed': {'scripts at 2 preemptions': len([c for c in confs if c.get('bound') == 2]), 'scripts at 1 preemption': len([c for c in confs if c.get('bound') == 1])},
         'scripts': len(confs),
         'executions_by_preemptions': total.get('by_preemptions', {}),
         'distinct_outcomes': sum(len(v) for v in outcomes.values()),
